@@ -440,6 +440,11 @@ def annot_stage(ctx):
     cov = diff.differential(ctx, "annot", cases, split=lambda out: tuple(out.split("#", 1)), oracle=annot_oracle,
                             shrinker=annot_shrinker, nontrivial=annot_nontrivial, describe=annot_describe)
     cov["input_histogram"] = hist
+    # how many of the documents have the regular shape C10_tables_from_tree is stated for (AnnotProofs.regularb)
+    dumps = [o.split("#", 1)[0] for o in core.run_lines(diff.Engines.harness(), "annot", cases)]
+    flags = core.run_lines(diff.Engines.model(), "annotreg", dumps)
+    cov["regular_documents"] = sum(1 for f in flags if f == "1")
+    cov["irregular_documents"] = sum(1 for f in flags if f == "0")
     cov["rule"] = ("every document is lexed+parsed by the real code (DocumentService::parse_content), the tree is dumped, "
                    "SemanticAnalysisService::analyze runs the real AstAnnotator on it in the full and in the definitions-only mode; "
                    "observation = for the root table and every method node's table, in walk order: for_class_or_module, every symbol "
